@@ -834,13 +834,21 @@ func (x *Exec) applyPure(env *Env, pf *PureFunc, recv *Val, args []*SExpr) Val {
 		var targs []*Term
 		for _, v := range argVals {
 			if v.T != nil {
-				if _, isI := v.T.Underlying().(*types.Interface); isI && pf.Recv != nil {
+				if _, isI := v.T.Underlying().(*types.Interface); isI && pf.Recv != nil && len(targs) == 0 {
 					// abstract state of an interface value: (ref, version)
-					targs = append(targs, v.L[1], x.absVersion(env.st, v.L[1]))
+					if pf.Stable {
+						targs = append(targs, v.L[1])
+					} else {
+						targs = append(targs, v.L[1], x.absVersion(env.st, v.L[1]))
+					}
 					continue
 				}
-				if _, isP := v.T.Underlying().(*types.Pointer); isP && pf.Abstract && pf.Recv != nil {
-					targs = append(targs, v.L[0], x.absVersion(env.st, v.L[0]))
+				if _, isP := v.T.Underlying().(*types.Pointer); isP && pf.Abstract && pf.Recv != nil && len(targs) == 0 {
+					if pf.Stable {
+						targs = append(targs, v.L[0])
+					} else {
+						targs = append(targs, v.L[0], x.absVersion(env.st, v.L[0]))
+					}
 					continue
 				}
 			}
